@@ -47,4 +47,16 @@ def opReplyRegister : List Sexp → String
       | none => "bad-args"
   | _ => "bad-args"
 
+/-- status.ext RAW START: packets/util.get_extended_status(msg, start) -/
+def opStatusExt : List Sexp → String
+  | [raw, st] =>
+      match Sexp.bytes? raw, Sexp.toNat? st with
+      | some bs, some start =>
+          match extendedStatus bs start with
+          | .error e => "raise:" ++ e.render
+          | .ok none => "ok N"
+          | .ok (some t) => "ok " ++ (Sexp.ofName t).render
+      | _, _ => "bad-args"
+  | _ => "bad-args"
+
 end Pycomm
